@@ -162,9 +162,9 @@ impl Topo {
 
     pub fn make_proc(&self, p: &str, rec: bool) -> Box<dyn anysystem::Process> {
         let kind = self.kinds.get(p).cloned().unwrap_or_default();
-        if kind == "py" || kind == "pyd" {
+        if kind == "py" || kind == "pyd" || kind == "pys" {
             let toks: Vec<Vec<String>> = self.rule_tokens.iter().filter(|(q, _)| q == p).map(|(_, w)| w.clone()).collect();
-            let class = if kind == "py" { "ScriptProc" } else { "ScriptProcDefault" };
+            let class = if kind == "py" { "ScriptProc" } else if kind == "pys" { "ScriptProcShared" } else { "ScriptProcDefault" };
             let f = anysystem::python::PyProcessFactory::new("/verif/harness/py/vscript.py", class);
             Box::new(f.build((rules_json(&toks), rec), 1))
         } else {
@@ -489,7 +489,7 @@ pub fn run() {
                 sc.topo
                     .procs
                     .push((ws[1].to_string(), ws[2].to_string(), ws[3..].contains(&"rec")));
-                for k in ["py", "pyd", "canon"] {
+                for k in ["py", "pyd", "pys", "canon"] {
                     if ws[3..].contains(&k) {
                         sc.topo.kinds.insert(ws[1].to_string(), k.to_string());
                     }
